@@ -156,11 +156,12 @@ type c17xSide struct {
 	ideal, cap_ btcutil.Amount
 	explicitMax bool
 
-	inbox       []c17xMsg // messages travelling to this side, FIFO
-	requested   bool      // ShutdownChan was called here
-	gotShutdown bool      // the peer's shutdown has been processed => flush hook registered
-	flushed     bool      // BeginNegotiation has been called
-	pending     int       // closing_signed delivered before the flush and not answered yet
+	inbox       []c17xMsg            // messages travelling to this side, FIFO
+	requested   bool                 // ShutdownChan was called here
+	gotShutdown bool                 // the peer's shutdown has been processed => flush hook registered
+	flushed     bool                 // BeginNegotiation has been called
+	pending     int                  // closing_signed delivered before the flush and not answered yet
+	early       lnwire.ClosingSigned // that message (kept by the harness, independent of the closer's cache)
 	sentCS      int
 	recvCS      int
 	failed      bool
@@ -321,6 +322,7 @@ func (n *c17xNet) deliver(s, peer *c17xSide, R int) bool {
 		// for BeginNegotiation, nothing is answered or signed now
 		vReach("cached")
 		s.pending++
+		s.early = m.cs
 		vAssert(s.pending == 1, "an honest peer has at most one unanswered offer outstanding")
 		vAssert(before == closeAwaitingFlush && s.c.state == closeAwaitingFlush, "an early closing_signed leaves the closer in closeAwaitingFlush")
 		vAssert(resp.IsNone() && len(s.ch.signedFees) == nSigned && len(s.ch.completed) == 0, "an early closing_signed is not answered before the flush")
@@ -334,7 +336,8 @@ func (n *c17xNet) deliver(s, peer *c17xSide, R int) bool {
 	vAssert(before == closeFeeNegotiation, "after the flush the closer negotiates")
 	vAssert(resp.IsSome(), "every offer received during negotiation is answered")
 	if resp.IsNone() {
-		return false
+		// keep running: the end-of-run oracle (deadlock) judges it as well
+		return true
 	}
 	out := resp.UnwrapOr(lnwire.ClosingSigned{})
 	n.answer(s, peer, m.cs, out)
@@ -363,11 +366,8 @@ func (n *c17xNet) flush(s, peer *c17xSide) bool {
 	if s.c == nil {
 		return false
 	}
-	var cached lnwire.ClosingSigned
 	hadCached := s.pending == 1
-	if hadCached {
-		cached = s.c.cachedClosingSigned.UnwrapOr(lnwire.ClosingSigned{})
-	}
+	cached := s.early
 	resp, err := s.c.BeginNegotiation()
 	s.flushed = true
 	vAssert(err == nil, "BeginNegotiation succeeds")
@@ -381,7 +381,7 @@ func (n *c17xNet) flush(s, peer *c17xSide) bool {
 		vAssert(!hadCached, "the non-opener never sends the first closing_signed")
 		vAssert(resp.IsSome(), "the opener sends the first offer when flushed")
 		if resp.IsNone() {
-			return false
+			return true
 		}
 		out := resp.UnwrapOr(lnwire.ClosingSigned{})
 		vAssert(out.FeeSatoshis == s.ideal && s.ch.signed(s.ideal) && out.ChannelID == s.c.cid, "the first offer is the opener's ideal fee, signed")
@@ -393,6 +393,11 @@ func (n *c17xNet) flush(s, peer *c17xSide) bool {
 	if !hadCached {
 		vReach("non-opener-waits")
 		vAssert(resp.IsNone() && s.c.state == closeFeeNegotiation && len(s.ch.signedFees) == 0, "the non-opener waits for the first offer")
+		if resp.IsSome() {
+			// an unsolicited offer still travels
+			s.sentCS++
+			peer.inbox = append(peer.inbox, c17xMsg{cs: resp.UnwrapOr(lnwire.ClosingSigned{})})
+		}
 		return true
 	}
 	vReach("cache-replayed")
@@ -400,7 +405,7 @@ func (n *c17xNet) flush(s, peer *c17xSide) bool {
 	// received during the negotiation
 	vAssert(resp.IsSome(), "a cached offer is answered by BeginNegotiation (not dropped, not cached again)")
 	if resp.IsNone() {
-		return false
+		return true
 	}
 	s.pending = 0
 	out := resp.UnwrapOr(lnwire.ClosingSigned{})
